@@ -308,9 +308,20 @@ def run_units(pid, tier, scratch, want_canary):
             gc, cpath, _ = build_unit(unit, scratch, canary=True)
             cvr = runverus.run(cpath, cache_dir=CACHE, cache_key_extra=runverus.verus_version())
             cfail, cund, _ = analyse(unit, gc, cvr)
-            failed_fns = set(f['fn'] for f in cfail if f['clause'] and f['clause'].startswith('false'))
-            failed_fns |= set(f['fn'] for f in cfail)
-            res['canary'] = {'failed_fns': failed_fns, 'undecided': cund, 'wall_s': cvr['wall_s']}
+            fired = set()
+            for d in cvr['diags']:
+                for sp in d.get('spans', []):
+                    ln = sp.get('line_start', 0)
+                    if 1 <= ln <= len(gc.linemap):
+                        o = gc.linemap[ln - 1]
+                        for oo in (o, o.get('also', {})):
+                            if oo.get('k') == 'ins' and str(oo.get('id', '')).startswith('canary'):
+                                fired.add(oo['id'])
+            expected = set()
+            for (_, meta) in []:
+                pass
+            expected = set(m.group(0) for m in re.finditer(r'canary(?:loop\d+)?:[^*]+?(?=\*/)', gc.text))
+            res['canary'] = {'fired': fired, 'expected': expected, 'undecided': [], 'wall_s': cvr['wall_s']}
         results[uname] = res
     return results
 
@@ -404,13 +415,12 @@ def run_check(pid, tier, seed, scratch, t0):
         cmds.append(r['vr']['cmd'].replace(scratch, '$SCRATCH'))
         if r['canary'] is not None:
             vac = []
-            for lab in relevant:
-                c = contracts[lab]
-                if c['mode'] == 'verify' and lab not in r['canary']['failed_fns']:
-                    vac.append(lab)
+            for cid in sorted(r['canary']['expected']):
+                lab = cid.split(':', 1)[1]
+                if lab in relevant and cid not in r['canary']['fired']:
+                    vac.append(cid)
             if vac:
-                undecided.append('vacuous: `ensures false` verified for %s' % ', '.join(sorted(vac)))
-            undecided += ['canary: ' + x for x in r['canary']['undecided']]
+                undecided.append('vacuous: `assert(false)` verified at %s' % ', '.join(vac))
 
     # extra (non-Verus) engines registered for this property
     extra_cov = {}
@@ -476,7 +486,8 @@ def run_check(pid, tier, seed, scratch, t0):
             'failed_obligations': failed_ids,
             'known_findings': [h[1]['text'] for h in known_hits],
             'not_decided': pdef.get('not_decided', []),
-            'canaries': {u: ('all %d canaries failed as expected' % len(r['canary']['failed_fns'])) if r['canary'] else 'not run (thorough tier only)'
+            'canaries': {u: ('%d of %d vacuity canaries (assert(false) at function entry / loop body entry) failed as they must'
+                             % (len(r['canary']['fired']), len(r['canary']['expected']))) if r['canary'] else 'not run (thorough tier only)'
                          for u, r in results.items()},
             'extra_engines': extra_cov,
         },
